@@ -8,7 +8,11 @@
 
 using namespace vc;
 
-enum Kind { C_CONT, C_STAGED, K_CONT, K_STAGED, K_SCHED, D_CONT, D_STAGED, W_KCONT };
+enum Kind { C_CONT, C_STAGED, K_CONT, K_STAGED, K_SCHED, D_CONT, D_STAGED, W_KCONT, W_KASYM };
+
+// harmonicWalls: per-side scale factors of the force constant (1 for symmetric walls; for lowerWallConstant 1,
+// upperWallConstant 4 the documented reference constant is the geometric mean 2 and the sides scale by 0.5 and 2)
+static double wall_scale(Kind k, bool upper) { return k == W_KASYM ? (upper ? 2.0 : 0.5) : 1.0; }
 
 struct Sched {
   const char *name;
@@ -24,12 +28,13 @@ static const double WIDTH = 0.5, C0 = 1.0, C1 = 3.0, K0 = 2.0, K1 = 6.0;
 static std::string conf_of(Sched const &s)
 {
   std::string c = "colvar {\n name d\n width 0.5\n distance {\n group1 { atomNumbers 1 }\n group2 { atomNumbers 2 }\n }\n}\n";
-  std::string b = (s.kind == W_KCONT) ? "harmonicWalls {\n name r\n colvars d\n lowerWalls 1.8\n upperWalls 2.4\n" : "harmonic {\n name r\n colvars d\n centers 1.0\n";
-  b += " forceConstant 2.0\n";
+  std::string b = (s.kind == W_KCONT || s.kind == W_KASYM) ? "harmonicWalls {\n name r\n colvars d\n lowerWalls 1.8\n upperWalls 2.4\n" : "harmonic {\n name r\n colvars d\n centers 1.0\n";
+  if (s.kind == W_KASYM) b += " lowerWallConstant 1.0\n upperWallConstant 4.0\n";
+  else b += " forceConstant 2.0\n";
   switch (s.kind) {
   case C_CONT: b += " targetCenters 3.0\n"; break;
   case C_STAGED: b += " targetCenters 3.0\n targetNumStages " + std::to_string(s.M) + "\n"; break;
-  case K_CONT: case W_KCONT: b += " targetForceConstant 6.0\n"; break;
+  case K_CONT: case W_KCONT: case W_KASYM: b += " targetForceConstant 6.0\n"; break;
   case K_STAGED: b += " targetForceConstant 6.0\n targetNumStages " + std::to_string(s.M) + "\n"; break;
   case K_SCHED: {
     b += " targetForceConstant 6.0\n lambdaSchedule";
@@ -161,6 +166,7 @@ int main(int argc, char **argv)
       {"decoupling-continuous", D_CONT, 4, 0, 0, 2.0, true, {}},
       {"decoupling-staged", D_STAGED, 2, 3, 0, 1.0, false, {}},
       {"walls-k-continuous", W_KCONT, 4, 0, 0, 1.0, true, {}},
+      {"walls-asymmetric-k-continuous", W_KASYM, 5, 0, 0, 1.0, true, {}},
   };
 
   long nseg = 1;
@@ -209,7 +215,7 @@ int main(int argc, char **argv)
               if (!close_rel(q.center, c, 3.0, 1e-13)) r.violation("C06:schedule:centers-continuous-closed-form", det + ",\"center\":" + num(q.center) + ",\"expected\":" + num(c) + "}");
               break;
             }
-            case K_CONT: case W_KCONT: {
+            case K_CONT: case W_KCONT: case W_KASYM: {
               double k = K0 + (K1 - K0) * std::pow(lam, sc.alpha);
               if (!close_rel(q.k, k, 6.0, 1e-13)) r.violation("C06:schedule:k-continuous-closed-form", det + ",\"k\":" + num(q.k) + ",\"expected\":" + num(k) + "}");
               break;
@@ -241,9 +247,9 @@ int main(int argc, char **argv)
           for (int s = 0; s < L; s++) {
             Rec const &q = ref.last[s];
             double e;
-            if (sc.kind == W_KCONT) {
+            if (sc.kind == W_KCONT || sc.kind == W_KASYM) {
               double d = q.x < 1.8 ? q.x - 1.8 : (q.x > 2.4 ? q.x - 2.4 : 0.0);
-              e = 0.5 * q.k * d * d / (WIDTH * WIDTH);
+              e = 0.5 * q.k * wall_scale(sc.kind, q.x > 2.4) * d * d / (WIDTH * WIDTH);
             } else e = 0.5 * q.k * (q.x - q.center) * (q.x - q.center) / (WIDTH * WIDTH);
             if (!close_rel(q.E, e, std::max(1.0, e), 1e-12))
               r.violation("C06:energy:moving-restraint-closed-form", base + ",\"step\":" + std::to_string(s) + ",\"energy\":" + num(q.E) + ",\"expected\":" + num(e) + "}");
@@ -261,9 +267,9 @@ int main(int argc, char **argv)
                 WC += q.k * (0.5 * (p.center + q.center) - q.x) / (WIDTH * WIDTH) * dc;
               } else {
                 double dk = q.k - p.k, dudk;
-                if (sc.kind == W_KCONT) {
+                if (sc.kind == W_KCONT || sc.kind == W_KASYM) {
                   double d = q.x < 1.8 ? q.x - 1.8 : (q.x > 2.4 ? q.x - 2.4 : 0.0);
-                  dudk = 0.5 * d * d / (WIDTH * WIDTH);
+                  dudk = 0.5 * wall_scale(sc.kind, q.x > 2.4) * d * d / (WIDTH * WIDTH);
                 } else dudk = 0.5 * (q.x - q.center) * (q.x - q.center) / (WIDTH * WIDTH);
                 WA += dudk * dk; WB = WA; WC = WA;
               }
